@@ -272,12 +272,41 @@ def run_isolated(fn, *args, timeout=600):
     return out[1]
 
 
-def execute_machine(machine, triple, prop):
-    """execute(), isolated in a forked child when the machine asks for it."""
+def gc_point():
+    """The cyclic garbage collector is a scheduler of object deaths (and of the recycling of their identities): it runs
+    only here, at points fixed by the run itself, never on allocation counts that depend on what the process did
+    before.  (The driver freezes the heap it built while warming up, so a collection costs microseconds.)"""
+    import gc
+    if gc.isenabled():
+        gc.disable()
+    gc.collect()
+
+
+def _execute_one(machine, triple, prop):
+    gc_point()
+    return machine.execute(triple, prop)
+
+
+def _execute_after(machine, history, triple, prop):
     import copy
+    for t in history:                                       # earlier runs of the same process, in order
+        try:
+            _execute_one(machine, copy.deepcopy(t), prop)
+        except Exception:                                   # noqa  (a shrunk history may contain an ill-formed run)
+            pass
+    return _execute_one(machine, copy.deepcopy(triple), prop)
+
+
+def execute_machine(machine, triple, prop, history=None):
+    """One run from a pristine process state.  Machines that declare ISOLATE (True: the search forks per run;
+    "chunk": the search forks per chunk of consecutive runs) execute in a forked child of the caller; with `history`
+    (the earlier runs of the chunk in which a violation showed) those runs are executed first in the same child."""
+    import copy
+    if history:
+        return run_isolated(_execute_after, machine, copy.deepcopy(history), copy.deepcopy(triple), prop)
     if getattr(machine, "ISOLATE", False):
-        return run_isolated(machine.execute, copy.deepcopy(triple), prop)
-    return machine.execute(copy.deepcopy(triple), prop)
+        return run_isolated(_execute_one, machine, copy.deepcopy(triple), prop)
+    return _execute_one(machine, copy.deepcopy(triple), prop)
 
 
 # ------------------------------------------------------------ minimiser ----
@@ -309,8 +338,8 @@ def ddmin(items, test):
     return items
 
 
-def minimise(machine, prop, triple, violation, budget_execs=400):
-    """Shrink a failing triple while the same violation class persists."""
+def minimise(machine, prop, triple, violation, budget_execs=400, history=None):
+    """Shrink a failing triple (after a fixed `history` of earlier runs, if any) while the same violation class persists."""
     import copy
     target = (violation["property"], violation["oracle"])
     count = [0]
@@ -320,13 +349,25 @@ def minimise(machine, prop, triple, violation, budget_execs=400):
             return False
         count[0] += 1
         try:
-            r = execute_machine(machine, t, prop)
+            r = execute_machine(machine, t, prop, history=history)
         except Exception:                                   # noqa  (a shrink candidate may be an ill-formed world)
             return False
         v = r.get("violation")
         return bool(v) and (v["property"], v["oracle"]) == target
 
     best = copy.deepcopy(triple)
+    if history:                                             # first: which of the earlier runs are needed at all
+        def fails_after(sub):
+            if count[0] >= budget_execs:
+                return False
+            count[0] += 1
+            try:
+                r = execute_machine(machine, best, prop, history=sub) if sub else execute_machine(machine, best, prop)
+            except Exception:                               # noqa
+                return False
+            v = r.get("violation")
+            return bool(v) and (v["property"], v["oracle"]) == target
+        history[:] = ddmin(history, fails_after)
 
     def with_(key, val):
         t = copy.deepcopy(best)
